@@ -56,6 +56,9 @@ fixed("C08", "D6", "^fix: commit --amend applies the prompt storage mode", "with
 open_("C12", "D15", "C05/base_commit_sha", ["C03/unsound-note@f.txt:6", "C03/unsound-note@f.txt:7", "C12/lost@f.txt:8", "C12/lost@f.txt:9"],
       "configuration: notes.rewriteRef=refs/notes/* with notes.rewrite.rebase=true; history: feature commit appends 2 AI lines to f.txt, upstream inserts 2 lines at the top, `git rebase main` => git itself copies the old note verbatim to the rewritten commit and git-ai then skips that commit ('already has a note'): base_commit_sha names the old commit, lines 6-7 (a person's) are listed as AI and the AI lines 8-9 are human",
       "c12.notes_rewrite_ref_copies_note_verbatim", ["setting:rewriteref"], affects=[])
+open_("C13", "D33", "C13/lost@g.txt:2", [],
+      "history: feature = [S1 inserts 2 lines at the top of f.txt; S2 inserts a line into g.txt]; upstream adds another file; `git rebase -i main` with the two picks swapped (no conflict) => in wrapper mode every AI line keeps its session, with git-ai installed as git hooks S2's line g.txt:2 is human",
+      "c13.interactive_rebase_reorder_in_hooks_mode", ["rebase_interactive"], affects=[])
 # ---------------------------------------------------------------- C02
 open_("C02", "D20", "C03/unsound-note@f.txt:12", [],
       "history: feature branch = [person replaces 2 lines of f.txt by 1; AI session S1 modifies line 5 of f.txt]; upstream inserts 2 AI lines after line 1 and then 5 human lines after line 5 of f.txt; `git rebase main` (no conflict) => the rewritten AI commit's note lists line 12 (text written by a person) as S1: the full rebase replay mis-places attributions when upstream changed the same file",
